@@ -6,7 +6,7 @@ cd "$(dirname "$0")/.."
 for d in seeded/*/; do
   id=$(basename $d)
   checks=$(python3 -c "import json; m=json.load(open('$d/meta.json')); print(' '.join(sorted(set(m['caught_by']+[m['property']]))))")
-  out=$(harness/seedtest.sh /verif/$d $checks 2>&1)
+  out=$(harness/seedtest.sh "$PWD/$d" $checks 2>&1)
   for c in $checks; do
     if echo "$out" | grep -q "VIOLATION property=$c"; then echo "$id $c CAUGHT"; else echo "$id $c MISSED"; fi
   done
